@@ -194,6 +194,20 @@ def run(v):
                     v.add_failure('C04.chunking_independent', {'mode': 'tcp', 'reach': 'transport'},
                                   'stream %s via TransportTCP read_buffer_size=%d: %s' % (list(lens_all[si - 1]), rbs, why),
                                   {'kind': 'c04', 'lens': list(lens_all[si - 1]), 'salt': salt + si, 'rbs': rbs})
+        # ... fed piecemeal, with NO end of stream in sight: once the bytes of a frame have been received the frame comes out - it does
+        # not wait for whatever the peer sends next (pieces as long as the read buffer, shorter, longer)
+        prog_bad = 0
+        for si, (data, bodies, ends, exps) in streams.items():
+            for rbs, piece in ((1, 1), (2, 2), (3, 3), (7, 7), (7, 14), (7, 5), (3, 7), (1024, 1024), (16, 16), (16, 64)):
+                if prog_bad >= 3:
+                    break
+                why = _via_transport_piecemeal(data, ends, exps, rbs, piece)
+                replayed += 1
+                if why:
+                    prog_bad += 1
+                    v.add_failure('C04.chunking_independent', {'mode': 'tcp', 'reach': 'transport_piecemeal'},
+                                  'stream %s via TransportTCP read_buffer_size=%d, fed %d bytes at a time: %s' % (list(lens_all[si - 1]), rbs, piece, why),
+                                  {'kind': 'c04', 'lens': list(lens_all[si - 1]), 'salt': salt + si, 'rbs': rbs, 'piece': piece})
         # ... and through the real QUIC transport (RSocketQuicProtocol + RSocketQuicTransport over a real, unconnected QuicConnection):
         # the stream's bytes arrive as StreamDataReceived events of any size, then the connection terminates
         quic_bad = 0
@@ -307,6 +321,60 @@ def _via_transport(data, exps, rbs):
     try:
         got = loop.run_until_complete(asyncio.wait_for(go(), 20))
         return compare(got, exps)
+    except Exception as ex:
+        return 'raised %s: %s' % (type(ex).__name__, ex)
+    finally:
+        loop.close()
+
+
+def _via_transport_piecemeal(data, ends, exps, rbs, piece):
+    """the stream is fed `piece` bytes at a time to a real StreamReader, the loop runs, and every frame whose last byte has been fed must
+    have come out of TransportTCP before the next piece is fed (the stream is never ended)"""
+    from rsocket.transports.tcp import TransportTCP
+
+    class W:
+        def close(self):
+            pass
+
+        def write(self, b):
+            pass
+
+    async def go():
+        reader = asyncio.StreamReader()
+        t = TransportTCP(reader, W(), read_buffer_size=rbs)
+        got = []
+
+        async def consume():
+            while True:
+                g = await t.next_frame_generator()
+                if g is None:
+                    return
+                async for f in g:
+                    got.append(describe(f))
+
+        task = asyncio.ensure_future(consume())
+        try:
+            fed = 0
+            while fed < len(data):
+                reader.feed_data(data[fed:fed + piece])
+                fed = min(len(data), fed + piece)
+                due = sum(1 for e in ends if e <= fed)
+                for _ in range(200):            # (loop iterations, not time: the transport has everything it needs)
+                    if len(got) >= due:
+                        break
+                    await asyncio.sleep(0)
+                if len(got) < due:
+                    return '%d bytes received hold %d whole frames, only %d came out (the rest waits for more input)' % (fed, due, len(got))
+                why = compare(got, exps[:len(got)])
+                if why:
+                    return why
+            return compare(got, exps)
+        finally:
+            task.cancel()
+
+    loop = asyncio.new_event_loop()
+    try:
+        return loop.run_until_complete(asyncio.wait_for(go(), 30))
     except Exception as ex:
         return 'raised %s: %s' % (type(ex).__name__, ex)
     finally:
